@@ -12,7 +12,15 @@ reports the mode held inside a body; every schedule runs to completion (no deadl
 import threading as real_threading
 import types
 
-PROP_FILES = ["Props/C11.lean"]
+PROP_FILES = ["Props/C11.lean", "Props/C11Shape.lean"]
+
+
+def pre_build():
+    """the shape of the lock sections is translated from /repo's current source on every run (harness/lockshape.py)"""
+    import os
+    import lockshape
+    here = os.path.dirname(os.path.dirname(os.path.dirname(os.path.abspath(__file__))))
+    lockshape.write_lean(lockshape.generate("/repo"), os.path.join(here, "lean", "Generated", "LockShape.lean"))
 LEVEL = "proof"
 
 
